@@ -134,6 +134,18 @@ def freelist_order(ctx, rule='C05.freelist-order'):
                 _, a0 = du.slice_operand(t['args'][0])
                 if any(a[0] == 'call' and ctx.A.get('freelist-view-mut') is not None and a[2] == ctx.A.get('freelist-view-mut').path for a in a0):
                     fn, copy_bb = n.fn, n.bb
+    # prefer the commit function with its private helpers folded in: the free / size / allocate / snapshot steps may be split between the commit and a helper
+    cmf = ctx.A.get('Tx::commit')
+    if cmf is not None:
+        X = ctx.x(cmf, keep_adts=('Freelist',))
+        fvm = ctx.A.get('freelist-view-mut')
+        for bb in sorted(X.reachable_blocks()):
+            t = X.term(bb)
+            c = callee_of(t) if t['k'] == 'call' else None
+            if c and last_seg(strip_generics(c['path'])) in ('copy_from_slice', 'clone_from_slice') and fvm is not None:
+                _, a0 = ctx.du(X).slice_operand(t['args'][0])
+                if any(a[0] == 'call' and a[2] == fvm.path for a in a0):
+                    fn, copy_bb = X, bb
     if fn is None:
         return [floor(rule, 'copy of the page-id list into the free-list page', 0, 1)]
     du = ctx.du(fn)
@@ -548,6 +560,8 @@ def run(ctx, tier):
     results += c16.grow(ctx, rule='C05.grow')
     import c11
     results += c11.remap_on_success(ctx, rule='C05.remap-on-success')
+    _ob = commit.obligations(ctx)
+    results += _ob['O4'] + _ob['O5']
     results += c02.cow_free_set(ctx, rule='C05.cow.free-set')
     import c10, c06
     results += c10.delete_walk_guard(ctx, rule='C05.delete-walk-guard')
